@@ -14,7 +14,8 @@ Open Scope N_scope.
 
 Inductive tev :=
 | TCallConnect | TCallDisconnect | TCallClose        (* the user calls Connect / Disconnect / Close *)
-| TPeerAck (code : N)                                 (* the peer sent a well-formed CONNACK *)
+| TPeerAck (flags code : N)                           (* the peer sent a well-formed CONNACK: acknowledge-flags byte, return code byte *)
+| TConnSP (sp : bool)                                 (* the session-present value a successful Connect returned *)
 | TPeerEnd (e : errc)                                 (* the peer closed / sent a malformed packet *)
 | TKATimeout                                          (* the peer stops answering PINGREQ *)
 | TDiscClose                                          (* Disconnect is let through to Transport.Close *)
@@ -113,21 +114,25 @@ Record vst := mkV {
   v_open_closed : bool;    (* inside the Closed callback *)
   v_ret_closed : bool;     (* the Closed callback has returned *)
   v_ended : bool;          (* TEnd seen *)
-  v_last : option (option errc * bool)   (* last sample *)
+  v_last : option (option errc * bool);  (* last sample *)
+  v_sp : option bool       (* session present of the first CONNACK (the one Connect can receive) *)
 }.
 
-Definition v0 : vst := mkV false false false false false false 0 0 0 None false false false None.
+Definition v0 : vst := mkV false false false false false false 0 0 0 None false false false None None.
 
 (* one event: (new state, ok) *)
 Definition v_step (s : vst) (t : tev) : vst * bool :=
-  let '(mkV cn ac ca di gr dc na nc nd ce oc rc en la) := s in
+  let '(mkV cn ac ca di gr dc na nc nd ce oc rc en la sp) := s in
   let nil_required := negb ca || gr in      (* healthy so far, or gracefully disconnected *)
   match t with
-  | TCallConnect => (mkV true ac ca di gr dc na nc nd ce oc rc en la, true)
-  | TCallDisconnect => (mkV cn ac ca true (gr || negb ca) dc na nc nd ce oc rc en la, true)
-  | TCallClose | TPeerEnd _ | TKATimeout => (mkV cn ac true di gr dc na nc nd ce oc rc en la, true)
-  | TPeerAck code => (mkV cn (ac || (code =? 0)) ca di gr dc na nc nd ce oc rc en la, true)
-  | TDiscClose => (mkV cn ac ca di gr true na nc nd ce oc rc en la, true)
+  | TCallConnect => (mkV true ac ca di gr dc na nc nd ce oc rc en la sp, true)
+  | TCallDisconnect => (mkV cn ac ca true (gr || negb ca) dc na nc nd ce oc rc en la sp, true)
+  | TCallClose | TPeerEnd _ | TKATimeout => (mkV cn ac true di gr dc na nc nd ce oc rc en la sp, true)
+  | TPeerAck flags code =>
+      (mkV cn (ac || (code =? 0)) ca di gr dc na nc nd ce oc rc en la
+           (match sp with None => Some (N.odd flags) | Some _ => sp end), true)
+  | TConnSP b => (s, match sp with Some x => Bool.eqb x b | None => false end)
+  | TDiscClose => (mkV cn ac ca di gr true na nc nd ce oc rc en la sp, true)
   | TDiscRet _ | TConnRet _ => (s, true)
   | TCb st e =>
       let after_disc := Nat.ltb 0 nd in                       (* nothing is reported after Disconnected *)
@@ -135,19 +140,19 @@ Definition v_step (s : vst) (t : tev) : vst * bool :=
       match st with
       | SNew => (s, false)                                    (* New is never reported *)
       | SActive =>
-          (mkV cn ac ca di gr dc (S na) nc nd ce oc rc en la,
+          (mkV cn ac ca di gr dc (S na) nc nd ce oc rc en la sp,
            ac && Nat.eqb na 0 && negb after_disc && err_ok)
       | SClosed =>
-          (mkV cn ac ca di gr dc na (S nc) nd (Some e) true rc en la,
+          (mkV cn ac ca di gr dc na (S nc) nd (Some e) true rc en la sp,
            Nat.eqb nc 0 && negb after_disc && negb gr && (ca || dc) &&
            match e with Some _ => true | None => false end)
       | SDisconnected =>
-          (mkV cn ac ca di gr dc na nc (S nd) ce oc rc en la,
+          (mkV cn ac ca di gr dc na nc (S nd) ce oc rc en la sp,
            di && Nat.eqb nd 0 && err_ok)
       end
   | TCbRet st =>
       match st with
-      | SClosed => (mkV cn ac ca di gr dc na nc nd ce false true en la, true)
+      | SClosed => (mkV cn ac ca di gr dc na nc nd ce false true en la sp, true)
       | _ => (s, true)
       end
   | TSample e d =>
@@ -165,7 +170,7 @@ Definition v_step (s : vst) (t : tev) : vst * bool :=
           (if d && negb di then Nat.eqb nc 1 else true) &&
           (if di then Nat.eqb nd 1 else Nat.eqb nd 0)
         else true in
-      (mkV cn ac ca di gr dc na nc nd ce oc rc en (Some (e, d)), err_ok && done_ok && end_ok)
+      (mkV cn ac ca di gr dc na nc nd ce oc rc en (Some (e, d)) sp, err_ok && done_ok && end_ok)
   | TLook e d =>
       (* inside a handler: the Closed callback may be the open one, so only "not before the end" *)
       let err_ok := (if nil_required then opt_errc_eqb e None else true) &&
@@ -175,7 +180,7 @@ Definition v_step (s : vst) (t : tev) : vst * bool :=
   | TStuck => (s, false)
   | TDoneSeen =>
       (s, cn && (ca || dc) && negb oc && (rc || Nat.ltb 0 nd))
-  | TEnd => (mkV cn ac ca di gr dc na nc nd ce oc rc true la, true)
+  | TEnd => (mkV cn ac ca di gr dc na nc nd ce oc rc true la sp, true)
   end.
 
 Fixpoint v_walk (s : vst) (ts : list tev) : bool :=
@@ -200,9 +205,9 @@ Definition c16_violations (cs : list c16_case) : list nat := indices_where (fun 
 Definition c16_demo_case : c16_case :=
   (false,
    [IT 0 TCallConnect; IStep (On 0 LConnStart); IT 0 (TSample None false);
-    IStep (On 0 (LConnWrite true)); IT 0 (TPeerAck 0); IStep (On 0 (LPeerConnAck 0));
+    IStep (On 0 (LConnWrite true)); IT 0 (TPeerAck 1 0); IStep (On 0 (connack_label 0 [1; 0]));
     IStep (On 0 LConnSeeAck); IStep (On 0 LConnActive); IT 0 (TCb SActive None); IT 0 (TCbRet SActive);
-    IT 0 (TConnRet ROk); IT 0 (TSample None false);
+    IT 0 (TConnRet ROk); IT 0 (TConnSP true); IT 0 (TSample None false);
     IT 0 (TPeerEnd EEOF); IStep (On 0 (LServeFail EEOF));
     IStep (On 0 LExitClose); IStep (On 0 LExitStore); IStep (On 0 LExitUpdate);
     IT 0 (TCb SClosed (Some EEOF)); IT 0 (TSample (Some EEOF) false); IT 0 (TCbRet SClosed);
